@@ -349,7 +349,7 @@ class Report:
         self.inconclusive.append((name, why))
 
     def write_replay(self, key, payload):
-        d = os.path.join(VERIF, 'replays')
+        d = os.environ.get('VERIF_REPLAY_DIR') or os.path.join(VERIF, 'replays')
         os.makedirs(d, exist_ok=True)
         safe = ''.join(ch if ch.isalnum() or ch in '-_.' else '_' for ch in key)
         path = os.path.join(d, f"{self.pid}_{safe}.json")
@@ -399,8 +399,9 @@ class Report:
         ev = dict(property_id=self.pid, tier=self.tier, seed=int(self.seed), level=level,
                   coverage=cov, assumptions=self.assumptions, wall_s=round(wall, 2),
                   violations=len(self.violations))
-        os.makedirs(os.path.join(VERIF, 'evidence'), exist_ok=True)
-        with open(os.path.join(VERIF, 'evidence', f'{self.pid}.json'), 'w') as f:
+        evdir = os.environ.get('VERIF_EVIDENCE_DIR') or os.path.join(VERIF, 'evidence')
+        os.makedirs(evdir, exist_ok=True)
+        with open(os.path.join(evdir, f'{self.pid}.json'), 'w') as f:
             json.dump(ev, f, indent=1, default=str)
         for key, what in self.known_hits:
             print(f"KNOWN-FINDING: property={self.pid} {key}: {what}")
